@@ -309,6 +309,12 @@ def main(argv=None):
     out["wall_s"] = round(time.time() - t0, 3)
     with open(a.out, "w") as f:
         json.dump(out, f)
+    try:  # os._exit skips atexit handlers: remove this process's scratch directory explicitly
+        from engines import plugin_scratch
+
+        plugin_scratch.cleanup_now()
+    except Exception:  # noqa
+        pass
     sys.stdout.flush()
     os._exit(0 if out["ok"] else 2)
 
